@@ -228,6 +228,18 @@ fn gen_system(g: &mut SplitMix64, fam: u64) -> (usize, Vec<Call>) {
             }
             (nvars, calls)
         }
+        // F22 witness (fixed, no random choices): full two-site matrix on [0,1] (diagonal 1/4,3/4,3/4,1/4,
+        // exchange 1/2) + one-site diagonal table [1/2,1/8] on variable 1 — arities 2 and 1 mixed; with the
+        // start op drawn uniformly (instead of the start leg) loop_update was not reversible here at beta = 1.
+        // Family 5 = the same on 3 spins with a 3-variable diagonal table (arities 1, 2, 3).
+        4 | 5 => {
+            calls.push(Call { variant: 0, mat: exchange(0.25, 0.25, 0.75, 0.5, 0.0), vars: vec![0, 1] });
+            calls.push(Call { variant: 2, mat: vec![0.5, 0.125], vars: vec![1] });
+            if fam == 5 {
+                calls.push(Call { variant: 2, mat: vec![0.125, 0.5, 0.25, 0.75, 0.375, 0.25, 0.625, 0.125], vars: vec![2, 0, 1] });
+            }
+            (if fam == 5 { 3 } else { 2 }, calls)
+        }
         // Ising-symmetric off-diagonal terms + constant single-site term: loop AND cluster updates
         _ => {
             let nvars = g.range(2, 4) as usize;
@@ -319,7 +331,29 @@ thread_local! {
 // trajectory / free / pipeline modes
 // ------------------------------------------------------------------------------------------
 
-fn loop_case(q: &mut Q, h: &Handle, calls_tok: &str) {
+/// statistics only (never part of an output or an oracle): arity of the op a loop started on, recomputed from the
+/// recorded words as rand 0.8 maps them (`gen_range(0..total)`: widening multiply, zone rejection) and the ops in
+/// chain order. `None` when the string is empty / the log is too short.
+fn start_arity(log: &[u64], arities: &[usize]) -> Option<usize> {
+    let total: usize = arities.iter().sum();
+    if total == 0 {
+        return None;
+    }
+    let zone = ((total as u64) << (total as u64).leading_zeros()).wrapping_sub(1);
+    let w = log.iter().find(|w| (((**w as u128) * total as u128) as u64) <= zone)?;
+    let mut choice = (((*w as u128) * total as u128) >> 64) as usize;
+    arities.iter().copied().find(|k| {
+        if choice < *k {
+            true
+        } else {
+            choice -= *k;
+            false
+        }
+    })
+}
+
+/// returns the arity of the op the loop started on (statistics; `None` for an empty string)
+fn loop_case(q: &mut Q, h: &Handle, calls_tok: &str) -> Option<usize> {
     let before_state = q.state_ref().to_vec();
     let before_slots = show_slots(q.get_manager_ref());
     let sk = skeleton(q);
@@ -349,8 +383,18 @@ fn loop_case(q: &mut Q, h: &Handle, calls_tok: &str) {
             if after_state != before_state {
                 stat("loop_crossed_boundary_state_changed", 1);
             }
+            let arities: Vec<usize> = sk.1.iter().map(|o| o.2.len()).collect();
+            let sa = start_arity(&log, &arities);
+            if let Some(k) = sa {
+                stat(&format!("loop_start_arity_{}", k), 1);
+                if arities.iter().any(|a| *a != k) {
+                    // the string mixes arities (the case where leg-uniform and op-uniform starts differ, F22)
+                    stat(&format!("loop_start_arity_{}_in_mixed_string", k), 1);
+                }
+            }
             let cons = propagate_check(q.get_manager_ref(), &after_state).map(|f| f == after_state).unwrap_or(false);
             emit(changed || log.len() > 4, &input, &format!("{} {} ok c={} hyp={}", bits(&after_state), after_slots, cons as u8, hyp as u8), Some(oracle));
+            sa
         }
     }
 }
@@ -437,11 +481,14 @@ fn pipe_case(q: &Q, beta: f64, do_loop: bool, calls_tok: &str) {
 
 fn run_traj(g: &mut SplitMix64, thorough: bool) {
     let nsys = if thorough { 2400 } else { 64 };
-    for s in 0..nsys {
-        let fam = s % 4;
+    // after the random families: the fixed F22 witness systems (families 4, 5), always run, (family, beta, heat bath)
+    let fixed: [(usize, f64, bool); 6] = [(4, 1.0, false), (4, 1.0, true), (4, 2.0, false), (5, 1.0, false), (5, 1.0, true), (5, 0.5, false)];
+    for s in 0..nsys + fixed.len() {
+        let witness = s >= nsys;
+        let fam = if witness { fixed[s - nsys].0 } else { s % 4 };
         let (nvars, calls) = gen_system(g, fam as u64);
         let do_loop = fam != 1 || g.chance(1, 3);
-        let hb = g.coin();
+        let hb = if witness { fixed[s - nsys].2 } else { g.coin() };
         let (mut q, h) = build(g, nvars, &calls, do_loop, hb);
         if q.get_bonds().is_empty() {
             continue;
@@ -453,22 +500,32 @@ fn run_traj(g: &mut SplitMix64, thorough: bool) {
         };
         BOND_VARS.with(|b| *b.borrow_mut() = accepted.clone());
         let calls_tok = show_calls(&calls);
-        let beta = *g.pick(&[0.5, 1.0, 1.5, 2.0, 3.0, 4.0]);
+        let beta = if witness { fixed[s - nsys].1 } else { *g.pick(&[0.5, 1.0, 1.5, 2.0, 3.0, 4.0]) };
         stat(&format!("family_{}", fam), 1);
         stat(if hb { "heatbath_on" } else { "heatbath_off" }, 1);
         stat(&format!("max_arity_{}", calls.iter().map(|c| c.vars.len()).max().unwrap_or(0)), 1);
         for _ in 0..8 {
             q.timestep(beta);
         }
-        let k = if thorough { 16 } else { 10 };
+        // witness systems: enough loops that they start on the 1-, 2- (and 3-) variable ops
+        let k = if witness { 40 } else if thorough { 16 } else { 10 };
+        let lc = |q: &mut Q| {
+            let sa = loop_case(q, &h, &calls_tok);
+            if witness {
+                stat("traj_f22_witness_loops", 1);
+                if let Some(a) = sa {
+                    stat(&format!("traj_f22_witness_fam{}_start_arity_{}", fam, a), 1);
+                }
+            }
+        };
         for step in 0..k {
             if step % 3 == 0 {
                 pipe_case(&q, beta, do_loop, &calls_tok);
             }
             q.diagonal_update(beta);
-            loop_case(&mut q, &h, &calls_tok);
+            lc(&mut q);
             if step % 2 == 1 {
-                loop_case(&mut q, &h, &calls_tok);
+                lc(&mut q);
             }
             if q.should_do_cluster_update() {
                 q.cluster_update().unwrap();
@@ -620,6 +677,14 @@ fn run_gate(g: &mut SplitMix64, thorough: bool) {
         let dl = g.coin();
         gate_case(g, nvars, &calls, dl);
     }
+    // the fixed F22 witness call lists (families 4, 5), always included
+    for fam in [4, 5] {
+        let (nvars, calls) = gen_system(g, fam);
+        for dl in [false, true] {
+            stat("gate_f22_witness", 1);
+            gate_case(g, nvars, &calls, dl);
+        }
+    }
 }
 
 // ------------------------------------------------------------------------------------------
@@ -650,7 +715,8 @@ fn first_visit(q: &QS, nvars: usize, op: &FastOp, ent: (usize, bool), fword: u64
         state[*v] = op.get_inputs()[i];
     }
     let side_word = if ent.1 { 0u64 } else { 1u64 << 63 }; // gen::<bool>() true -> Inputs
-    let mut rng = LimitRng { words: vec![0, crafted(ent.0, k), side_word, fword], pos: 0 };
+    // start draws: one `gen_range(0..total)` over all legs' variables (one op: total = k, slot = relative variable), side
+    let mut rng = LimitRng { words: vec![crafted(ent.0, k), side_word, fword], pos: 0 };
     let r = catch(|| {
         m.make_loop_update_with_rng(
             None,
@@ -664,8 +730,8 @@ fn first_visit(q: &QS, nvars: usize, op: &FastOp, ent: (usize, bool), fword: u64
             return Err(format!("loop update panicked: {}", p));
         }
     }
-    if rng.pos != 4 {
-        return Err(format!("first vertex visit consumed {} words, expected 4", rng.pos));
+    if rng.pos != 3 {
+        return Err(format!("first vertex visit consumed {} words, expected 3", rng.pos));
     }
     let after = m.get_pth(0).unwrap().clone();
     let mut diff = vec![];
@@ -847,16 +913,85 @@ fn run_exit(g: &mut SplitMix64, thorough: bool) {
 // start op / leg / side draw map
 // ------------------------------------------------------------------------------------------
 
+/// last word that `gen_range(0..n)` accepts and maps to `a` (the words above it, up to `crafted(a + 1, n) - 1`,
+/// are outside the acceptance zone: rejected, another word is drawn)
+fn last_accepted(a: usize, n: usize) -> u64 {
+    let zone = ((n as u64) << (n as u64).leading_zeros()).wrapping_sub(1);
+    ((((a as u128) << 64) + zone as u128) / n as u128) as u64
+}
+
+fn side_word(g: &mut SplitMix64) -> u64 {
+    match g.below(3) {
+        0 => g.next(),
+        1 => 1u64 << 63,
+        _ => (1u64 << 63) - 1,
+    }
+}
+
+/// One loop update of the real code on `m0` (all ops diagonal on the all-false state, every weight 1, bond number =
+/// index of the op) with the scripted words first. From the first call of the weight closure (exit leg (0, Inputs)):
+/// (bond of the start op, entrance legs identified as (relative variable, is-output), words consumed before that call);
+/// the log is cut there.
+fn start_probe(m0: &FastOps, nvars: usize, sc: Vec<u64>, seed: u64) -> (Vec<u64>, Result<(usize, Vec<(usize, bool)>, usize), String>) {
+    let h: Handle = Rc::new(RefCell::new(RecRng::scripted(sc, seed)));
+    let mut rng = HRng(h.clone());
+    let mut m = m0.clone();
+    let mut state = vec![false; nvars];
+    // (bond, inputs, outputs, words consumed so far) at the first call of the weight closure
+    let first: RefCell<Option<(usize, Vec<bool>, Vec<bool>, usize)>> = RefCell::new(None);
+    let h2 = h.clone();
+    let r = catch(|| {
+        m.make_loop_update_with_rng(
+            None,
+            |_v: &[usize], bond: usize, i: &[bool], o: &[bool]| {
+                let mut f = first.borrow_mut();
+                if f.is_none() {
+                    *f = Some((bond, i.to_vec(), o.to_vec(), h2.borrow().log.len()));
+                }
+                1.0
+            },
+            &mut state,
+            &mut rng,
+        )
+    });
+    let f = first.borrow().clone();
+    let log = h.borrow().log.clone();
+    match (r, f) {
+        (Ok(()), Some((bond, mut i, o, used))) => {
+            // first call is exit leg (0, Inputs): arguments = all-false with entrance and (0,in) toggled
+            i[0] = !i[0];
+            let set: Vec<(usize, bool)> = i
+                .iter()
+                .enumerate()
+                .filter(|(_, b)| **b)
+                .map(|(r, _)| (r, false))
+                .chain(o.iter().enumerate().filter(|(_, b)| **b).map(|(r, _)| (r, true)))
+                .collect();
+            (log[..used].to_vec(), Ok((bond, set, used)))
+        }
+        (r, _) => (log, Err(format!("loop update failed: {:?}", r.err()))),
+    }
+}
+
 fn run_start(g: &mut SplitMix64, thorough: bool) {
     let ncfg = if thorough { 600 } else { 30 };
-    for _ in 0..ncfg {
-        let nvars = g.range(1, 5) as usize;
+    for c in 0..ncfg {
+        let nvars = (if c % 2 == 0 { g.range(3, 5) } else { g.range(1, 5) }) as usize;
+        let kmax = nvars.min(3);
         let l = g.range(1, 12) as usize;
+        // arity plan: 0 = a single op; 1 = one arity for the whole string; 2 = random arity per op;
+        // 3.. = arities cycle 1,2,3 from a random offset (all arities present as soon as there are kmax ops)
+        let plan = g.below(7);
+        let (k1, off, only) = (g.range(1, kmax as i64) as usize, g.below(3) as usize, g.below(l as u64) as usize);
         // all-diagonal ops on the all-false state, each with its own bond number (identifies the op)
         let mut ops = vec![];
         for p in 0..l {
-            if g.chance(2, 3) {
-                let k = g.range(1, nvars.min(3) as i64) as usize;
+            if if plan == 0 { p == only } else { g.chance(2, 3) } {
+                let k = match plan {
+                    0 | 1 => k1,
+                    2 => g.range(1, kmax as i64) as usize,
+                    _ => 1 + (ops.len() + off) % kmax,
+                };
                 let vars = distinct_vars(g, nvars, k);
                 ops.push((p, mk_op(&vars, ops.len(), &vec![false; k], &vec![false; k], false)));
             }
@@ -864,70 +999,94 @@ fn run_start(g: &mut SplitMix64, thorough: bool) {
         if ops.is_empty() {
             continue;
         }
-        let n = ops.len();
+        let arities: Vec<usize> = ops.iter().map(|o| o.1.get_vars().len()).collect();
+        // the start draw is uniform over the slots 0..total: one slot per (op, relative variable), ops in chain order
+        let total: usize = arities.iter().sum();
         let m0 = FastOps::new_from_ops(nvars, ops.clone());
         let slots = show_slots(&m0);
+        let aset: String = (1..=3).filter(|k| arities.contains(k)).map(|k| k.to_string()).collect();
+        stat(&format!("start_string_arities_{}", aset), 1);
+        stat(&format!("start_string_ops_{}", match ops.len() { 1 => "1", 2..=3 => "2-3", 4..=7 => "4-7", _ => "ge8" }), 1);
         let mut scripts: Vec<Vec<u64>> = vec![];
         for _ in 0..(if thorough { 12 } else { 6 }) {
-            scripts.push(vec![g.next(), g.next(), g.next()]);
+            scripts.push(vec![g.next(), g.next()]);
         }
-        // boundaries of the uniform maps: first word mapped to a, last word mapped to a-1
-        for a in 0..n {
-            let k = ops[a].1.get_vars().len();
-            let b = g.below(k as u64) as usize;
-            scripts.push(vec![crafted(a, n), crafted(b, k), g.next()]);
+        // boundaries of the uniform map, every slot (in particular the first and last slot of each op, where the
+        // walk along the chain moves on to the next op): first word mapped to a, the word before it (maps to a-1 or is
+        // rejected), last accepted word mapped to a
+        for a in 0..total {
+            scripts.push(vec![crafted(a, total), side_word(g)]);
             if a > 0 {
-                scripts.push(vec![crafted(a, n) - 1, crafted(b, k), if g.coin() { 1u64 << 63 } else { (1u64 << 63) - 1 }]);
+                scripts.push(vec![crafted(a, total) - 1, side_word(g)]);
             }
-            if b > 0 {
-                scripts.push(vec![crafted(a, n), crafted(b, k) - 1, g.next()]);
-            }
+            scripts.push(vec![last_accepted(a, total), side_word(g)]);
         }
         for sc in scripts {
-            let h: Handle = Rc::new(RefCell::new(RecRng::scripted(sc, g.next())));
-            let mut rng = HRng(h.clone());
-            let mut m = m0.clone();
-            let mut state = vec![false; nvars];
-            // (bond, inputs, outputs, words consumed so far) at the first call of the weight closure
-            let first: RefCell<Option<(usize, Vec<bool>, Vec<bool>, usize)>> = RefCell::new(None);
-            let h2 = h.clone();
-            let r = catch(|| {
-                m.make_loop_update_with_rng(
-                    None,
-                    |_v: &[usize], bond: usize, i: &[bool], o: &[bool]| {
-                        let mut f = first.borrow_mut();
-                        if f.is_none() {
-                            *f = Some((bond, i.to_vec(), o.to_vec(), h2.borrow().log.len()));
-                        }
-                        1.0
-                    },
-                    &mut state,
-                    &mut rng,
-                )
-            });
-            let f = first.borrow().clone();
-            match (r, f) {
-                (Ok(()), Some((bond, mut i, o, used))) => {
-                    // first call is exit leg (0, Inputs): arguments = all-false with entrance and (0,in) toggled
-                    i[0] = !i[0];
-                    let set: Vec<String> = i
-                        .iter()
-                        .enumerate()
-                        .filter(|(_, b)| **b)
-                        .map(|(r, _)| format!("{}i", r))
-                        .chain(o.iter().enumerate().filter(|(_, b)| **b).map(|(r, _)| format!("{}o", r)))
-                        .collect();
+            let (log, r) = start_probe(&m0, nvars, sc, g.next());
+            match r {
+                Ok((bond, set, used)) => {
                     let pos = ops[bond].0;
-                    let log = h.borrow().log[..used].to_vec();
-                    let oracle = if set.len() == 1 { Ok(()) } else { Err(format!("cannot identify the entrance leg: {:?}", set)) };
+                    let toks: Vec<String> = set.iter().map(|(r, o)| format!("{}{}", r, if *o { "o" } else { "i" })).collect();
+                    let oracle = if set.len() == 1 { Ok(()) } else { Err(format!("cannot identify the entrance leg: {:?}", toks)) };
                     stat(&format!("start_words_{}", used), 1);
-                    emit(true, &format!("start {} {}", slots, words(&log)), &format!("{} {} ok", pos, set.join("+")), Some(oracle));
+                    stat(&format!("start_on_arity_{}_of_{}", arities[bond], aset), 1);
+                    emit(true, &format!("start {} {}", slots, words(&log)), &format!("{} {} ok", pos, toks.join("+")), Some(oracle));
                 }
-                (r, _) => {
-                    emit(true, &format!("start {} {}", slots, words(&h.borrow().log)), "none - PANIC", Some(Err(format!("loop update failed: {:?}", r.err()))));
+                Err(e) => {
+                    emit(true, &format!("start {} {}", slots, words(&log)), "none - PANIC", Some(Err(e)));
                 }
             }
         }
+        // summary of the slot map: the first word mapped to each slot a (never rejected), side word 2^63 = Inputs.
+        // Oracle: a |-> (position, relative variable) is a bijection onto the (occupied position, relative variable)
+        // pairs of the string, in chain order (position, then relative variable, increasing in a).
+        let want: Vec<(usize, usize)> = ops.iter().flat_map(|(p, o)| (0..o.get_vars().len()).map(move |r| (*p, r))).collect();
+        let mut got: Vec<Option<(usize, usize)>> = vec![];
+        let mut bad: Option<String> = None;
+        for a in 0..total {
+            let (_, r) = start_probe(&m0, nvars, vec![crafted(a, total), 1u64 << 63], g.next());
+            got.push(match r {
+                Ok((bond, set, used)) if set.len() == 1 => {
+                    if set[0].1 && bad.is_none() {
+                        bad = Some(format!("slot {}: side word 2^63 selected Outputs", a));
+                    }
+                    if used != 2 && bad.is_none() {
+                        bad = Some(format!("slot {}: {} words consumed by the start, expected 2", a, used));
+                    }
+                    Some((ops[bond].0, set[0].0))
+                }
+                Ok((_, set, _)) => {
+                    bad = bad.or(Some(format!("slot {}: cannot identify the entrance leg: {:?}", a, set)));
+                    None
+                }
+                Err(e) => {
+                    bad = bad.or(Some(format!("slot {}: {}", a, e)));
+                    None
+                }
+            });
+        }
+        let show = |v: &[(usize, usize)]| v.iter().map(|(p, r)| format!("{}:{}", p, r)).collect::<Vec<_>>().join(",");
+        if bad.is_none() {
+            let sel: Vec<(usize, usize)> = got.iter().map(|x| x.unwrap()).collect();
+            let mut sorted = sel.clone();
+            sorted.sort();
+            if sorted != want {
+                bad = Some(format!("selected (position:relative variable) {} is not a bijection onto {}", show(&sel), show(&want)));
+            } else if sel != want {
+                bad = Some(format!("selected {} is not in chain order {}", show(&sel), show(&want)));
+            }
+        }
+        let out = if got.is_empty() {
+            "-".to_string()
+        } else {
+            got.iter().map(|x| x.map(|(p, r)| format!("{}:{}", p, r)).unwrap_or("none".into())).collect::<Vec<_>>().join(",")
+        };
+        let oracle = match bad {
+            None => Ok(()),
+            Some(e) => Err(format!("start slot map is not a chain-order bijection: {}", e)),
+        };
+        stat(&format!("startmap_total_{}", match total { 1 => "1", 2..=4 => "2-4", 5..=12 => "5-12", _ => "gt12" }), 1);
+        emit(ops.len() > 1, &format!("startmap {} {}", slots, total), &out, Some(oracle));
     }
 }
 
